@@ -136,7 +136,14 @@ def run_case(lines):
             elif f[0] == "in":
                 data = tr.resolve(unhx(f[1]))
                 tr.fed(data)
-                out = d.op(data)
+                if data and not data.endswith(b"\n"):
+                    # the first part of a line that arrives in two reads: nothing can be asked
+                    # until the line is complete (the marker would become part of it)
+                    ok = d.send(data)
+                    time.sleep(0.05)
+                    out = b"" if ok else None
+                else:
+                    out = d.op(data)
                 if out is None:
                     print(d.fault()); dead = True
                 else:
